@@ -472,8 +472,10 @@ pub fn gen_case(rng: &mut Rng, n: usize) -> Case {
         }
         11 | 12 => {
             // OBJECT IDENTIFIER
-            let roots: [(&str, u128); 3] = [("itu-t", 0), ("iso", 1), ("joint-iso-itu-t", 2)];
+            // X.660 / X.680 annex: `ccitt` and `joint-iso-ccitt` are synonyms of `itu-t` and `joint-iso-itu-t`
+            let roots: [(&str, u128); 5] = [("itu-t", 0), ("iso", 1), ("joint-iso-itu-t", 2), ("ccitt", 0), ("joint-iso-ccitt", 2)];
             let (rn, rv) = *rng.pick(&roots);
+            let synonym = rn.contains("ccitt");
             let mut text = vec![];
             let mut arcs = vec![rv];
             text.push(match rng.below(3) {
@@ -512,7 +514,7 @@ pub fn gen_case(rng: &mut Rng, n: usize) -> Case {
                     v.to_string()
                 });
             }
-            Case { types: String::new(), ty: "OBJECT IDENTIFIER".into(), val: format!("{{ {} }}", text.join(" ")), expected: AV::Oid(arcs), trailing_zeros_insignificant: false, as_default: false, form: "oid" }
+            Case { types: String::new(), ty: "OBJECT IDENTIFIER".into(), val: format!("{{ {} }}", text.join(" ")), expected: AV::Oid(arcs), trailing_zeros_insignificant: false, as_default: false, form: if synonym { "oid/root-written-as-ccitt-synonym" } else { "oid" } }
         }
         13 => {
             // CHOICE value
@@ -682,6 +684,16 @@ fn check_batch(cases: &[(usize, Case)], rep: &mut Report) {
                     rep.count("values_compared", 1);
                     rep.violations.push(Violation {
                         sig: format!("c07|not-an-initialiser|{}|{site}", c.form.split('/').next().unwrap_or(c.form)),
+                        what: format!("`{} ::= {}` ({site}): emitted `{}`: {why}", c.ty, c.val, one_line(&text, 160)),
+                        replay: json!({"types": c.types, "type": c.ty, "value": c.val, "site": site, "emitted": text}),
+                    });
+                }
+                // an initialiser that names a constant the module does not define cannot denote the source value (nothing of that
+                // name is a value assignment of the input: the generator only refers to values it has defined)
+                Err(why) if why.starts_with("unknown constant ") => {
+                    rep.count("values_compared", 1);
+                    rep.violations.push(Violation {
+                        sig: format!("c07|initialiser-refers-to-an-undefined-constant|{}|{site}", c.form),
                         what: format!("`{} ::= {}` ({site}): emitted `{}`: {why}", c.ty, c.val, one_line(&text, 160)),
                         replay: json!({"types": c.types, "type": c.ty, "value": c.val, "site": site, "emitted": text}),
                     });
